@@ -84,6 +84,28 @@ def _install_seams():
         setattr(mod, attr, s)
 
 
+class _PandasProxy:
+    """`pd` as seen by sempler.semi and drf.code: real pandas, except that DataFrame construction goes
+    through a seam that can fail like an allocation does (fault kind alloc.fail)."""
+
+    def __init__(self, real, seam):
+        self.__dict__["_real"] = real
+        self.__dict__["DataFrame"] = seam
+
+    def __getattr__(self, name):
+        return getattr(self._real, name)
+
+
+def install_pandas_seam(modules):
+    import pandas
+    s = Seam("pd.DataFrame", pandas.DataFrame)
+    SEAMS["pd.DataFrame"] = s
+    proxy = _PandasProxy(pandas, s)
+    for m in modules:
+        if getattr(m, "pd", None) is pandas:
+            m.pd = proxy
+
+
 def seams_begin(arm=None):
     """Start tracking seam calls for one library op.  arm = (seam name, nth, exception)."""
     for s in SEAMS.values():
@@ -199,6 +221,8 @@ def boot(repo="/repo", with_peer=False, quiet=True):
         import rpy2
         if not os.path.realpath(rpy2.__file__).startswith(os.path.join(VERIF, "fake_rpy2")):
             raise RuntimeError("a real rpy2 was imported instead of the simulated peer")
+        import drf.code
+        install_pandas_seam([sempler.semi, drf.code])
     _state["booted"] = True
     _state["repo"] = repo
     return sempler
